@@ -13,7 +13,7 @@ ids probed by the per-key readers.  Fields of an op are separated by `:`.
   cpt (t = copy of s)  cps (s = copy of s)  swap
   eq:E  (E may also be `x`: an object that is not a mapping)         -> `B<eq><ne>`
   sorted:fn:rev  (fn = n|k|v|c)   sv:fn:rev  (fn = n|m|g|c)           -> `O<pairs>`
-`todict(multi=True)` is a dict: it is printed sorted by key id on both sides.
+`todict()` / `todict(multi=True)` are dicts: printed sorted by key id on both sides.
 Output: one `;`-separated record per op: `<ret> <dump of every reader of s> T<pairs of t>`.
 -/
 namespace C01.Driver
@@ -51,6 +51,7 @@ def dump (nk : Nat) (st : HState Nat Nat) : String :=
     s!"KM{showNats s.keysM}", s!"K{showNats s.keys}",
     s!"VM{showNats s.valuesM}", s!"V{showE (showNats ·) s.values}",
     s!"L{s.len}", s!"R{showE (showNats ·) s.reversed}",
+    s!"TD{showE (fun l => showPairs (sortBy (fun a b => decide (a.1 ≤ b.1)) l)) s.todict}",
     s!"TM{",".intercalate ((sortBy (fun a b => decide (a.1 ≤ b.1)) s.todictM).map fun kv => s!"{kv.1}={showVals kv.2}")}",
     s!"G{",".intercalate (ks.map fun k => showE (fun o => match o with | some v => toString v | none => "D") (s.get k))}",
     s!"GL{",".intercalate (ks.map fun k => showVals (s.getlist k))}",
